@@ -108,6 +108,14 @@ func c13AgedHistories() [][]string {
 			)
 		}
 	}
+	// balances that come back to exactly zero (a record holding nothing is still a record: it
+	// carries the wallet it belongs to)
+	out = append(out,
+		[]string{"set a hg", "addnb a 5", "addnb a -5", "reopen"},
+		[]string{"set a hg", "link W1 a", "addab W1 7", "addab W1 -7", "reopen"},
+		[]string{"set a hg", "addnb a 5", "link W1 a", "addab W1 -5"},
+		[]string{"set a hg", "set b cl", "addnb a 5", "addnb b -5", "addnb a -5", "addnb b 5"},
+	)
 	return out
 }
 
